@@ -3,12 +3,14 @@
 use std::collections::HashMap;
 use std::panic::{AssertUnwindSafe, catch_unwind};
 
-use nuts_rs::{Chain, CpuLogpFunc, CpuMath, DiagMclmcSettings, DiagNutsSettings, HasDims, LogpError, Settings};
+use nuts_rs::{
+    Chain, CpuLogpFunc, CpuMath, DiagMclmcSettings, DiagNutsSettings, HasDims, HashMapConfig, HashMapValue, LogpError, Model, Sampler, SamplerWaitResult, Settings,
+};
 use rand::SeedableRng;
 use serde_json::{Value, json};
 use thiserror::Error;
 
-#[derive(Debug)]
+#[derive(Debug, Clone)]
 struct Normal {
     dim: usize,
 }
@@ -154,6 +156,91 @@ fn last_step(p: &Value) -> Value {
     }
 }
 
+struct NormalModel {
+    math: CpuMath<Normal>,
+}
+impl Model for NormalModel {
+    type Math<'model>
+        = CpuMath<Normal>
+    where
+        Self: 'model;
+    fn math<R: rand::Rng + ?Sized>(&self, _rng: &mut R) -> anyhow::Result<Self::Math<'_>> {
+        Ok(self.math.clone())
+    }
+    fn init_position<R: rand::Rng + ?Sized>(&self, _rng: &mut R, position: &mut [f64]) -> anyhow::Result<()> {
+        for p in position.iter_mut() {
+            *p = 0.3;
+        }
+        Ok(())
+    }
+}
+
+fn lens(v: &HashMapValue) -> usize {
+    match v {
+        HashMapValue::F64(x) => x.len(),
+        HashMapValue::F32(x) => x.len(),
+        HashMapValue::Bool(x) => x.len(),
+        HashMapValue::I64(x) => x.len(),
+        HashMapValue::U64(x) => x.len(),
+        HashMapValue::String(x) => x.len(),
+    }
+}
+
+fn wait<F>(mut sampler: Sampler<F>) -> Result<F, String>
+where
+    F: Send + 'static,
+{
+    loop {
+        match sampler.wait_timeout(std::time::Duration::from_millis(50)) {
+            SamplerWaitResult::Trace(t) => return Ok(t),
+            SamplerWaitResult::Timeout(s) => sampler = s,
+            SamplerWaitResult::Err(e, _) => return Err(format!("{e:?}")),
+        }
+    }
+}
+
+/// C14: the HashMap backend must finalize a default NUTS / MCLMC run and return num_tune + num_draws values per scalar statistic
+fn hashmap_finalize(p: &Value) -> Value {
+    let mclmc = p["sampler"].as_str() == Some("mclmc");
+    let (nt, nd) = (20u64, 30u64);
+    let r = quiet(|| {
+        let model = NormalModel { math: CpuMath::new(Normal { dim: 2 }) };
+        let traces = if mclmc {
+            let mut settings = DiagMclmcSettings::default();
+            settings.num_chains = 1;
+            settings.num_tune = nt;
+            settings.num_draws = nd;
+            settings.seed = 3;
+            wait(Sampler::new(model, settings, HashMapConfig::new(), 1, None).map_err(|e| format!("{e:?}")).unwrap())
+        } else {
+            let mut settings = DiagNutsSettings::default();
+            settings.num_chains = 1;
+            settings.num_tune = nt;
+            settings.num_draws = nd;
+            settings.seed = 3;
+            wait(Sampler::new(model, settings, HashMapConfig::new(), 1, None).map_err(|e| format!("{e:?}")).unwrap())
+        };
+        traces.map(|t| {
+            let mut out = serde_json::Map::new();
+            let t: &Vec<_> = &t;
+            for (k, v) in &t[0].stats {
+                out.insert(k.clone(), json!(lens(v)));
+            }
+            out
+        })
+    });
+    match r {
+        Ok(Ok(l)) => {
+            let expect = (nt + nd) as usize;
+            // more values than draws for a per-draw statistic: two statistics were merged into one buffer
+            let wrong: Vec<_> = l.iter().filter(|(_k, v)| v.as_u64().unwrap_or(0) > expect as u64).map(|(k, v)| json!([k, v])).collect();
+            json!({"confirmed": !wrong.is_empty(), "panicked": false, "expected_len": expect, "wrong_lengths": wrong})
+        }
+        Ok(Err(e)) => json!({"confirmed": true, "panicked": false, "error": e}),
+        Err(msg) => json!({"confirmed": true, "panicked": true, "message": msg}),
+    }
+}
+
 fn main() {
     let args: Vec<String> = std::env::args().collect();
     let fam = args.get(1).map(|s| s.as_str()).unwrap_or("");
@@ -162,6 +249,7 @@ fn main() {
         "num_tune" => num_tune(&p),
         "mclmc_tuning" => mclmc_tuning(&p),
         "last_step" => last_step(&p),
+        "hashmap_finalize" => hashmap_finalize(&p),
         _ => json!({"error": "unknown family"}),
     };
     println!("{}", out);
